@@ -118,6 +118,7 @@ theorem static_pres (hi lo : Nat) (T : Table) :
     · exact h
   poolAdd := by intro s x h _; exact h
   poolDel := by intro s x h; exact h
+  restart := by intro s h; exact h
 
 theorem checkTx_true {hi lo : Nat} {t : Tx} {h tm : Nat} (hc : checkTx hi lo t h tm = true) :
     isExpire hi lo t h tm = false ∧ t.feeOk = true ∧ t.chainOk = true := by
@@ -246,6 +247,9 @@ theorem sig_pres (T : Table) :
   poolDel := by
     intro s x h
     exact ⟨fun y hy => h.1 y (List.mem_filter.mp hy).1, h.2.1, h.2.2⟩
+  restart := by
+    intro s h
+    exact ⟨fun y hy => by simp [C27.restart] at hy, h.2.1, h.2.2⟩
 
 /-! ### uniqueness -/
 
@@ -437,6 +441,7 @@ theorem uniq_pres (T : Table) (hnx : ∀ i, txhOf (T i) = none) (U : List Blk)
     · exact h
   poolAdd := by intro s x h _; exact h
   poolDel := by intro s x h; exact h
+  restart := by intro s h; exact h
 
 /-! ### the producer path -/
 
